@@ -1,6 +1,6 @@
 """C20 — configuration parser (DESIGN.md §4 C20)."""
 
-PKGS = ["./framework/config/lexer/", "./framework/cfgparser/"]
+PKGS = ["./framework/config/lexer/", "./framework/cfgparser/", "./internal/msgpipeline/"]
 
 
 def harness(c, n, replay_ops=None):
@@ -10,11 +10,12 @@ def harness(c, n, replay_ops=None):
 
 
 def run(c):
+    c.extract("cfgfacts", "CfgFacts.lean")
     c.lean("C20")
     if c.replay:
         harness(c, 1, replay_ops=c.replay.get("replay_ops") or [])
     else:
-        harness(c, 100000 if c.thorough else 6000)
+        harness(c, 150000 if c.thorough else 20000)
 
     def search():
         c.seed += 1000
